@@ -36,10 +36,10 @@ CLAIMED = {
     engine="driver-ai"),
  "C18": dict(
     category="proof",
-    text="Every i32/i64 overflow and range obligation inside ntt / inv_ntt / mat_vec_mul / to_mont / add_vector_ntt, the reductions they call and the point-wise Montgomery products is discharged in every calling context reachable from the public API under the ranges the callers establish, including the adversarial response vector of verification (z ranges over the whole decoded interval). Decides the no-overflow half of the property; the transforms being the FIPS linear maps is not decided.",
+    text="Every i32/i64 overflow and range obligation inside ntt / inv_ntt / mat_vec_mul / to_mont / add_vector_ntt, the reductions they call and the point-wise Montgomery products is discharged in every calling context reachable from the public API under the ranges the callers establish, including the adversarial response vector of verification (z ranges over the whole decoded interval). Functional half, linear part: one symbolic run of every instance of ntt / inv_ntt / to_mont with all 256*KL input coefficients as named symbols yields each output coefficient as a linear form modulo q; every entry of every 256x256 matrix is compared with FIPS 204 (NTT(w)[j] = sum_i 1753^((2 brv8(j)+1) i) w_i; its inverse with 256^-1 and canonical output range; to_mont = 2^32 x), polynomials do not mix. With mont_reduce's contract (C15) the point-wise products are the FIPS products. The bilinear compositions as polynomial identities are not decided.",
     design_ref="DESIGN.md §4 C18",
-    note="Trusted: abstract domains. Functional correctness (negacyclic product) not decided by this check.",
-    technique="abstract interpretation over monomorphic MIR (per-call-site interval/congruence/affine ranges through the unrolled transforms)",
+    note="Trusted: abstract domains (incl. linear forms modulo q); that the NTT diagonalises the negacyclic product is textbook mathematics. Quick: instances of ML-DSA-44 (ntt<1>, ntt<4>, inv_ntt<4>, to_mont<4>), thorough: all instances.",
+    technique="abstract interpretation over monomorphic MIR (per-call-site interval/congruence/affine ranges through the unrolled transforms) + symbolic linear forms modulo q compared with the FIPS matrices",
     engine="driver-ai"),
  "C07": dict(
     category="proof",
